@@ -68,6 +68,7 @@ pub fn generate(rng: &mut Rng, tier: Tier, stats: &mut GenStats) -> Scenario {
         victims: vec![],
         layers: vec![],
         taps: g.rng.chance(1, 4),
+        erased: false,
     };
     if g.rng.chance(7, 10) {
         w.source = Source::Glob {
